@@ -30,6 +30,8 @@ def obligations(tier):
         for f in (0, 2, 8):
             obs.append(Ob(f"C10.fields3.first{f}", "CH", "harness.h_metadata", "metadata_fields", 1800, {"VF_FIRST": f, "VF_NLINES": 3},
                           funcs=(MD + "Metadata.from_chart_lines",), bounds="3 token lines"))
+    obs.append(Ob("C10.framing", "CH", "harness.h_chart", "framing", 300, funcs=("chartparse.chart.Chart._partition_lines_by_data_section",),
+                  bounds="3 sections x <=2 symbolic body lines of any length (blank lines included): this section's parser receives exactly its own body lines"))
     return obs
 
 
